@@ -1,18 +1,18 @@
 import Ogorek.Lemmas.EncParse
 import Ogorek.Lemmas.QuoteInv
 import Ogorek.Lemmas.RueInv
+import Ogorek.Lemmas.FmtG
 
 /-!
   What the decoder's parse layer reads from the encoder's protocol-0 text forms.
 -/
 namespace Ogorek
 
-/-- The one thing about protocol 0 that is assumed rather than proved: Go's `%g` text of this float
-    holds no newline and `strconv.ParseFloat` reads it back as the same float64 (true of every
-    non-NaN float and of the canonical NaN by the shortest-round-trip property of strconv; the
-    model's `fmtG` / `F64.parse` are validated against the implementation on every run). -/
-def FloatTextOK (f : F64) : Prop :=
-  (10 : UInt8) ∉ F64.fmtG f ∧ parseFloatArg (F64.fmtG f) = .ok (.pushFloat f)
+/-- The one thing about protocol 0 that is assumed rather than proved: `strconv.ParseFloat` reads Go's
+    `%g` text of this float back as the same float64 (true of every non-NaN float and of the canonical
+    NaN by the shortest-round-trip property of strconv; the model's `fmtG` / `F64.parse` are validated
+    against the implementation on every run). That the text holds no newline is proved (`fmtG_no_lf`). -/
+def FloatTextOK (f : F64) : Prop := parseFloatArg (F64.fmtG f) = .ok (.pushFloat f)
 
 theorem parses_float_txt (c : ECfg) (f : F64) (hp : ¬ c.proto ≥ 1) (hf : FloatTextOK f) :
     Parses (flat (encodeFloat c f)) [.pushFloat f] := by
@@ -21,7 +21,7 @@ theorem parses_float_txt (c : ECfg) (f : F64) (hp : ¬ c.proto ≥ 1) (hf : Floa
   simp only [encodeFloat, hp, if_false, flat_emit]
   have e : (70 :: F64.fmtG f ++ [10]) ++ t = 70 :: (F64.fmtG f ++ 10 :: t) := by simp
   rw [e]
-  simp only [parseInsn, Rd.bind, readByte, parseArg_70, Rd.mapE, readLine_line _ _ hf.1, hf.2, Rd.pure]
+  simp only [parseInsn, Rd.bind, readByte, parseArg_70, Rd.mapE, readLine_line _ _ (fmtG_no_lf f), show parseFloatArg (F64.fmtG f) = .ok (.pushFloat f) from hf, Rd.pure]
 
 theorem parses_unicode_txt (c : ECfg) (s : Bytes) (hp : ¬ c.proto ≥ 1) (he : (encodeUnicode c s).err = none) :
     Parses (flat (encodeUnicode c s)) [.pushStr s] := by
